@@ -72,3 +72,22 @@ Inductive akind := KInteger | KReal | KNumber | KString | KBinary | KBoolean | K
 
 (* value substituted in lenient mode: None = nothing substituted *)
 Inductive filler := FNone | FInt0 | FReal0 | FEmptyStr.
+
+(* ---- externally mapped instances: STEPcomplex::STEPread merges what reading its parts reported ----
+   a part = (severity its SDAI_Application_instance::STEPread returned,
+             per attribute: (severity of the attribute's error, the attribute is derived by another part)) *)
+Definition part := (Z * list (Z * bool))%type.
+
+(* OnlyDerivedValuesGiven(): every attribute with an error worse than a user message is a derived one, and there is one *)
+Definition only_derived_values_given (attrs : list (Z * bool)) : bool :=
+  forallb (fun a => negb (fst a <? SEVERITY_USERMSG) || snd a) attrs
+  && existsb (fun a => fst a <? SEVERITY_USERMSG) attrs.
+
+(* does the severity of this part reach the instance? *)
+Definition part_counts (p : part) : bool :=
+  (fst p <? SEVERITY_NULL) && negb ((fst p =? SEVERITY_WARNING) && only_derived_values_given (snd p)).
+
+(* the severity STEPcomplex::STEPread returns: own = what the record syntax itself gave *)
+Definition complex_sev (own : Z) (parts : list part) : Z :=
+  let pe := fold_left (fun acc p => if part_counts p then greater acc (fst p) else acc) parts SEVERITY_NULL in
+  if pe <? SEVERITY_NULL then greater own pe else own.
